@@ -4,7 +4,8 @@ from vf.schemas import Schema
 ASSUMPTIONS = [
     "CrossHair 0.0.110 model of Python and z3 5.1.0",
     "family per path: Inner, Outer(Inner, List[Inner], Optional[int]), Sub(Outer), Gen[int]/Gen[date] inside Holder, self-"
-    "referencing Node, all with ADD_DIALECT_SUPPORT, Mixed(Plain, Optional[NoSup]) whose nested classes have NO dialect support, on the orjson (and msgpack, thorough) mixin with identity transports; modes: "
+    "referencing Node, all with ADD_DIALECT_SUPPORT, Mixed(Plain, Optional[NoSup]) whose nested classes have NO dialect support; every class logs its four hooks and the "
+    "hook trace is part of each outcome, on the orjson (and msgpack, thorough) mixin with identity transports; modes: "
     "lazy_compilation, postponed (forward references unresolvable at class creation), eager (control)",
     "history: k operations (k = 2 quick, 3 thorough) chosen by the solver from {to_dict, from_dict, to_<format>, from_<format>} x "
     "{no dialect, D1} x {Outer, Inner, Sub, Node, Holder, Mixed}; operations 1..k-1 and a dry run of the k-th run untraced on concrete "
@@ -32,7 +33,7 @@ def run(tier, seed):
     hs = harnesses(tier, seed)
     return runner.run_property(
         "C14", hs, tier, seed, 600 if tier == "quick" else 3000,
-        bounds={"history_ops": 2 if tier == "quick" else 3, "op_alphabet": 24 if tier == "quick" else 48, "modes": len(hs)},
+        bounds={"history_ops": 2 if tier == "quick" else 3, "op_alphabet": 20 if tier == "quick" else 48, "modes": len(hs)},
         assumptions=ASSUMPTIONS,
         functions_note=["lazy stubs and the methods they compile on first call", "postponed-evaluation stubs",
                         "dialect-specific packers/unpackers compiled on first use", "generic specialisation methods"])
